@@ -265,7 +265,8 @@ pub fn run_c16<K: KeyLike>(t: &C16Case) -> CaseReport {
         other_cfg.a = other_cfg.a % 5 + 1;
         other_cfg.b = other_cfg.b % 3 + 1;
         other_cfg.c = other_cfg.c % 3 + 2;
-        other_cfg.samples = other_cfg.samples % 7 + 1;
+        // (half of the targets get a much bigger sample window: a doorkeeper of another size)
+        other_cfg.samples = if t.diverge.len() % 2 == 0 { other_cfg.samples % 7 + 1 } else { 700 + other_cfg.samples * 13 };
         let mut target = match guarded!(rep, Sut::<K>::build(kind, &other_cfg)) {
             Ok(s) => s,
             Err(_) => return rep,
